@@ -170,6 +170,115 @@ PROPS = {
     },
 }
 
+HF_TB = [
+    "UTF-8 decoding and BufRead::lines' read_until/from_utf8 are not modelled: a file is a list of atoms (chr c | bad b) "
+    "produced from the raw bytes by Rust's own Utf8Chunks in the harness; splitting atoms at chr '\\n' = splitting bytes at 0x0A",
+    "UTF-8 encoding of one character (Rl.utf8Bytes) is modelled by the standard formula (used for str.as_bytes()[j] and for "
+    "truncating a file at a byte offset); agreement is part of the correspondence (cuts inside multi-byte characters)",
+    "memchr3 byte loop of save_to modelled as a character loop (the three escaped bytes are ASCII)",
+    "file system: one path, one live handle; File::create/open/seek/set_len, flock and the BufWriter are modelled as whole-file "
+    "replacement / concatenation; the mtime comparison of can_just_append is 'equal' unless the harness changed the file "
+    "(it then sets a distinct old mtime)",
+    "char::is_whitespace taken from the implementation via the charinfo header",
+    "MemHistory store semantics (add/ignore/eviction) reused from the C09 model",
+]
+
+PROPS["C10"] = {
+    "module": "Rl.Props.C10",
+    "targets": [{"name": "hf", "gen": "hf10", "header_tokens": 4}],
+    "shards": {"quick": 8, "thorough": 16},
+    "trivial_impl_regex": r"",
+    "rule": "real temporary files through FileHistory::{save,append,load,iter}. Exhaustive: every single entry of <=3 characters, "
+            "every list of 2 entries of <=2 characters, every list of 3 entries of <=1 character over {\\n,\\r,\\\\,n,#,V,2,blank,e-acute,a}, "
+            "each through the write scenarios save / append-to-missing / append-to-existing (same session; new session that loaded; "
+            "new session that did not load = rewrite path) / save-load cycles (quick: scenarios rotate over the lists, thorough: all 7 "
+            "per list), 6 configurations (limits 1,2,3,100, ignore-space, ignore-dups); random multi-session sequences with long entries "
+            "(<=40 chars over the wide alphabet) and small limits; legacy (header-less) files incl. CRLF streams and appends onto them. "
+            "Every request observes the raw file bytes (model: fileOf) and the entries after loading into a fresh history; the "
+            "executable spec (logical content: written = loaded) judges the implementation's observations.",
+    "exhaustive": {"quick": True, "thorough": True},
+    "trusted_base": HF_TB,
+    "level_text": "Unbounded Lean theorems about the history-file model: the escaping is injective and line-break free, "
+                  "load(fileOf es) = es for every storable entry list and every configuration (all characters, incl. line breaks, "
+                  "carriage returns, backslashes, header look-alikes), append = concatenation, save/load cycles are the identity, "
+                  "a legacy file yields its non-empty lines verbatim. The model is tied to /repo by an exhaustive + random "
+                  "differential run on real temporary files (file bytes and loaded entries) on every check.",
+    "level_note": "Trusted: Lean kernel; the harness/diff; UTF-8 decoding and BufRead::lines (file = atoms produced by Rust's "
+                  "Utf8Chunks); the UTF-8 encoding formula; the file system / flock / mtime abstraction (one path, one live handle). "
+                  "Sessions sharing a file concurrently are C11, not claimed here.",
+    "assumptions": ["same settings for writer and reader; no concurrent writer (C11)"],
+}
+
+PROPS["C12"] = {
+    "module": "Rl.Props.C12",
+    "targets": [{"name": "hf", "gen": "hf12", "header_tokens": 4}],
+    "shards": {"quick": 8, "thorough": 16},
+    "trivial_impl_regex": r"",
+    "rule": "torn files: for every list of 2 entries of <=2 characters over {\\n,\\r,\\\\,n,e-acute,blank} and for random longer lists, "
+            "the file written by a scenario (save, append-to-missing, append fast path, append rewrite path, cycles) is truncated at "
+            "EVERY byte offset (so cuts inside multi-byte characters and inside escapes occur), loaded by the real FileHistory::load "
+            "under catch_unwind into a fresh history, then used (add, dump). Foreign bytes: exhaustive byte strings of length <=3 "
+            "(thorough <=4) over {\\n,\\r,\\\\,n,a,C3,A9,FF} after each header variant (#V2\\n, none, #V2\\r\\n, #V2 without line end) and "
+            "random byte strings (invalid UTF-8, lone backslashes, CR/LF mixes, empty file, header only, #V2x) loaded into empty "
+            "and non-empty histories, followed by add/save/append; plus a live session whose file is cut or removed behind its back "
+            "and which then appends (forces the re-read path on a torn file).",
+    "exhaustive": {"quick": True, "thorough": True},
+    "trusted_base": HF_TB,
+    "level_text": "Unbounded Lean theorems about the history-file model: loading any atom list into any history never panics "
+                  "(every slice/index of the unescape loop is an Option in the model), an error keeps exactly what the complete "
+                  "lines before it produced, and for every storable entry list and every cut offset >= 4 the load of the byte "
+                  "prefix yields the written entries in order with at most the last one cut short (a prefix). Tied to /repo by "
+                  "loading every byte prefix of written files and arbitrary byte strings with the real code on every check.",
+    "level_note": "Trusted: Lean kernel; the harness/diff; UTF-8 decoding and BufRead::lines (file = atoms produced by Rust's "
+                  "Utf8Chunks); the UTF-8 encoding formula used to cut at byte offsets; a crash leaves a byte prefix (writes are "
+                  "sequential through one BufWriter) is the property's own premise.",
+    "assumptions": ["a crash leaves a prefix of the bytes a completed write would have produced (premise of the property)"],
+}
+
+
+PROPS["C07"] = {
+    "module": "Rl.Props.C07",
+    "targets": [{"name": "ed07", "gen": "ed07", "header_tokens": 9}],
+    "shards": {"quick": 8, "thorough": 16},
+    "rule": 'ed07: emacs and vi key scripts on a pty with 1-5 history entries (multi-line, duplicates, multi-byte), arbitrary initial/in-progress lines, three quarters of the keys being history navigation (C-p, C-n, Up, Down in CSI and SS3 encodings, M-<, M->, vi j/k/+/- with counts) mixed with edits, quoted line breaks and searches. Oracle: the navigation spec machine (index + saved in-progress line) run over the Event::Any callbacks; Editor::history() after the read must equal the given entries.',
+    "trivial_impl_regex": r"=> .*",
+    "exhaustive": {"quick": False, "thorough": False},
+    "trusted_base": ["pty harness (quiescence detection through /proc, one key press at a time) and diff",
+                     "scripted helpers are functions of the text (same table on both sides)"],
+    "unproved": ['C07_model_prev_statement'],
+    "level_text": "Lean theorems about the C07 navigation spec machine (up shows the stored entry verbatim with the cursor at its end; stops at the oldest; leaving and coming back restores the in-progress line and cursor exactly), the editor model diffed against the real editor on a pty, and the spec machine run as an oracle over the implementation's callbacks (entries in order, saved line restored char for char with its cursor, first/last, line-wise Up/Down first, stored history unchanged). Partial: the refinement model => spec machine is stated, not yet proved; the SQLite back end is covered by C20.",
+    "level_note": 'Trusted: Lean kernel; pty harness; FileHistory back end only in this check.',
+    "assumptions": ["keyseq_timeout = None (default)"],
+}
+PROPS["C08"] = {
+    "module": "Rl.Props.C08",
+    "targets": [{"name": "ed08", "gen": "ed08", "header_tokens": 9}],
+    "shards": {"quick": 8, "thorough": 16},
+    "rule": 'ed08: key scripts dominated by incremental-search sessions (C-r, typed search text incl. multi-byte and regex/FTS metacharacters, repeated C-r/C-s direction changes, backspaces, aborts with C-g/ESC, terminating commands incl. Tab, Enter, motions, numeric arguments) over 1-5 history entries, emacs and vi. Oracle: the search loop replayed over the callbacks with the declarative nearest-match spec of C09 (shown entry, cursor at the match, line kept on failure, abort restores line+cursor).',
+    "trivial_impl_regex": r"=> .*",
+    "exhaustive": {"quick": False, "thorough": False},
+    "trusted_base": ["pty harness (quiescence detection through /proc, one key press at a time) and diff",
+                     "scripted helpers are functions of the text (same table on both sides)"],
+    "unproved": ['C08_abort_restores_statement'],
+    "level_text": "Lean theorems: a successful search step of the model shows a stored entry containing the text at the cursor, nearest in the search direction (corollary of the C09 theorems); a failed step means no entry on that side matches; the oracle's search function equals the model's (Spec.find = MemHist.search). The editor model is diffed against the real editor; the search-loop spec machine runs as oracle over the implementation's callbacks. Partial: abort transparency at the level of the undo log is stated, not yet proved (checked by the C05/C14 oracles).",
+    "level_note": 'Trusted: Lean kernel; pty harness; str::find as naive search (C09).',
+    "assumptions": ["keyseq_timeout = None (default)"],
+}
+PROPS["C14"] = {
+    "module": "Rl.Props.C14",
+    "targets": [{"name": "ed14", "gen": "ed14", "header_tokens": 9}],
+    "shards": {"quick": 8, "thorough": 16},
+    "rule": 'ed14: key scripts with a scripted word completer (1-4 candidates incl. empty strings, shared prefixes, multi-byte; start = after the last blank before the cursor), runs of Tab / Shift-Tab, aborts (ESC, C-g), terminating keys, the Undo probe (C-_) right after an accepted completion, cursors inside longer lines, circular and list modes. Oracle: the completion spec machine over the callbacks (only [start,cursor) rewritten, circular order and wrap, list-mode LCP, abort restores, undo restores).',
+    "trivial_impl_regex": r"=> .*",
+    "exhaustive": {"quick": False, "thorough": False},
+    "trusted_base": ["pty harness (quiescence detection through /proc, one key press at a time) and diff",
+                     "scripted helpers are functions of the text (same table on both sides)"],
+    "unproved": ['C14_abort_restores_statement'],
+    "level_text": "Lean theorems about the circular index arithmetic of the model (stays in range, k Tabs show candidate k mod (n+1), Shift-Tab is the inverse permutation) and the span-only shape of what is shown; the editor model is diffed against the real editor; the completion spec machine runs as oracle over the implementation's callbacks. Partial: abort/undo transparency of the model is stated, not yet proved; the paging dialogue is correspondence-checked only.",
+    "level_note": 'Trusted: Lean kernel; pty harness; completers reporting start > cursor are excluded (helper bug).',
+    "assumptions": ["keyseq_timeout = None (default)"],
+}
+
 # properties not (yet) claimed, with the reason (kept current; see DESIGN.md)
 NOT_APPLICABLE = {
 }
